@@ -94,6 +94,7 @@ def real_run(job):
             "cwnm": bool(p.collect_when_not_matched), "unm_avail": bool(p.unmatched_available),
             "will_run": bool(p.will_run), "stdout": getattr(cap, "text", None), "metadata": {k: v for k, v in (p.metadata or {}).items()},
             "headers": list(p.headers or []), "records_read": nread[0],
+            "pln": p.line_monitor.physical_line_number, "dlc": p.line_monitor.data_line_count,
         })
     except Exception as ex:  # parse errors etc.
         obs["exc"] = "SETUP " + type(ex).__name__ + ": " + str(ex)[:80]
